@@ -22,6 +22,48 @@ CHECKS = {
         "Trusted: hand-written tables/validator in vf/ref (written from the serial API, not from const_*.py). Inputs whose verdict the statement does not pin are executed but not compared.",
         "DESIGN.md §2 C03",
     ),
+    "C01": (
+        "exploration",
+        "Hypothesis state-aware history generation over 4 transports x 5 versions with a no-crash / no-effect oracle (tri-state reference validator + full state snapshot diff); thorough: real poll thread liveness probe and atheris coverage-guided op-sequence fuzzing",
+        "Generated histories (2.5k quick / 48k thorough, <= 40 ops) mixing valid, near-valid, arbitrary-payload and raw lines with controller calls; every op is checked for escaping exceptions and every rejected line for zero effect on a full snapshot. Found F1,F2,F3,F5,F6 on the pinned tree.",
+        "Trusted: reference validator decides 'invalid'; lines with unpinned verdict only need not crash. MQTT inbound text is mapped to topics by the harness (levels = first five fields).",
+        "DESIGN.md §2 C01",
+    ),
+    "C04": (
+        "exploration",
+        "Hypothesis history generation run in lock-step with a reference model (model-based testing): projection and callback log compared after every step",
+        "Generated histories (2.5k quick / 40k thorough) over 5 versions x sync/async; the node/child/value projection with Python types and the callback count/fields/in-callback state are compared with the reference model after every single step, with a raising callback injected at generated steps.",
+        "Trusted: vf/ref/model.py. Callback exactness is required only where the statement pins it (exactly once iff the projection changed; at most once otherwise; zero for rejected lines).",
+        "DESIGN.md §2 C04",
+    ),
+    "C05": (
+        "exploration",
+        "Hypothesis history generation in lock-step with a reference model prescribing the reply per step, plus independent re-decoding/re-validation of every emitted string; stubbed clock",
+        "Per step the ordered transport log must equal the model's prescription (ack not compared; id response may be broadcast); every emitted line must be canonical and valid under the independent validator.",
+        "Trusted: vf/ref/model.py, vf/ref/validate.py; mysensors.handler.time is replaced by a stub (localtime drawn; gmtime/time deliberately different).",
+        "DESIGN.md §2 C05",
+    ),
+    "C07": (
+        "exploration",
+        "Hypothesis history generation (2.x, several nodes) with a history invariant over the transport log: destination sleeping => step is that node's wake-up; awake nodes answered in the causing step",
+        "Every emitted command is attributed to the step in which it reached the transport; sleeping-ness comes from the reference model. 2.5k quick / 40k thorough histories, non-trivial when a sleeper is owed traffic while other nodes talk.",
+        "Trusted: reference model's notion of 'sleeping'. Arrival orders are whatever the generator interleaves (one line per step, fully pumped).",
+        "DESIGN.md §2 C07",
+    ),
+    "C08": (
+        "exploration",
+        "Hypothesis history generation in lock-step with a reference hold-queue/desired-value model; call-time refusal and non-vacuity clauses; generator built to reach version-dependent value types",
+        "At every wake-up the burst must equal FIFO hold queue + one set per pending desired value of a reported type; desired values persist until reported; undeliverable values must be refused at call time; plainly valid calls must be accepted. Found F2,F3,F4 (and the node side of F13) on the pinned tree.",
+        "Trusted: vf/ref/model.py; order among desired-value sets within one burst is not compared.",
+        "DESIGN.md §2 C08",
+    ),
+    "C10": (
+        "exploration",
+        "Hypothesis history generation against a per-node reference session automaton with set-valued states (model-based), malformed firmware requests injected in every session state",
+        "Every firmware request's reply is matched against the alternatives the automaton allows and the automaton is narrowed by what was observed; reboot rule checked on every set message; update through make_update and through update_fw(fw_path=Intel-HEX).",
+        "Trusted: vf/ref/model.py + vf/ref/ota.py (own CRC). A block request for non-existent firmware may or may not start the fetching phase (both accepted).",
+        "DESIGN.md §2 C10",
+    ),
 }
 
 NOT_YET = {}
